@@ -315,9 +315,9 @@ func jobs(tier string) []job {
 	for _, k := range hk.Kinds() {
 		j := job{Kind: k.Name, MaxLen: 2, P: 3000}
 		if tier == "thorough" {
-			j.MaxLen, j.P = 3, 20000
-			if k.Name == "pacing" || k.Name == "cc-gcc-leaky-bucket" {
-				j.P = 6000 // 200 timer wake-ups per 1000 packets make these the slowest
+			j.MaxLen, j.P = 3, 10000
+			if k.Name == "pacing" || k.Name == "cc-gcc-leaky-bucket" || k.Name == "jitterbuffer" {
+				j.P = 4000 // 200 timer wake-ups per 1000 packets (pacers) and the buffer walk make these the slowest
 			}
 		}
 		j.Chunks = 4
